@@ -40,9 +40,9 @@ Proof. exact policy_quiescent. Qed.
 Print Assumptions C05_quiescent.
 
 (* one maintenance run consumes the whole write buffer and keeps the invariant, whatever it holds *)
-Theorem C05_maintenance_consumes_buffer : forall hashf cur rnd now m fl,
+Theorem C05_maintenance_consumes_buffer : forall hashf cur rnd now adj m fl,
   MI m (fl ++ wbuf m) ->
-  let m' := fst (fst (fst (m_maintenance hashf cur rnd now m))) in
+  let m' := fst (fst (fst (m_maintenance hashf cur rnd now adj m))) in
   MI m' fl /\ wbuf m' = [].
 Proof. exact MI_maintenance. Qed.
 Print Assumptions C05_maintenance_consumes_buffer.
@@ -71,7 +71,7 @@ Print Assumptions C05_weights_immutable.
 Example C05_hypotheses_satisfiable :
   let h := fun _ k : Z => k in
   let evs := [ESetMax 10 1 7; ECreate 101 1 1; EReplace 102 1 1 101; EPush 1; EPush 0; ERead 102;
-              EMaint (fun _ => 0) 1 0] in
+              EMaint (fun _ => 0) 1 0 0] in
   run_ok h (sys0 false false) evs /\
   let s := fold_left (sys_step h) evs (sys0 false false) in
   pend s = [] /\ qwin (pol (sm s)) ++ qprob (pol (sm s)) ++ qprot (pol (sm s)) = [102] /\ wsize (pol (sm s)) = 1.
@@ -89,7 +89,7 @@ Example C05_out_of_order_witness_repaired :
   let m0 := m_set_maximum (mstate0 true false false) 10 1 7 in
   let m1 := m_push (m_new m0 101 1 1) (TAdd 101) in
   let m2 := m_push (m_retire (m_new m1 102 1 1) 101) (TUpd 102 101) in
-  let '(m3, _, _, _) := m_maintenance h (fun _ => 0) 1 0 m2 in
+  let '(m3, _, _, _) := m_maintenance h (fun _ => 0) 1 0 0 m2 in
   (qwin (pol m3) ++ qprob (pol m3) ++ qprot (pol m3) = [102]) /\ wsize (pol m3) = 1 /\
   pstate (node_of (pol m3) 101) = DEAD /\ pstate (node_of (pol m3) 102) = ALIVE.
 Proof. vm_compute. repeat split. Qed.
@@ -101,7 +101,30 @@ Example C05_update_before_add_repaired :
   let m1 := m_new m0 101 1 1 in
   let m2 := m_retire (m_new m1 102 1 1) 101 in
   let m3 := m_push (m_push m2 (TUpd 102 101)) (TAdd 101) in
-  let '(m4, _, _, _) := m_maintenance h (fun _ => 0) 1 0 m3 in
+  let '(m4, _, _, _) := m_maintenance h (fun _ => 0) 1 0 0 m3 in
   (qwin (pol m4) ++ qprob (pol m4) ++ qprot (pol m4) = [102]) /\ wsize (pol m4) = 1 /\ wwsize (pol m4) = 1 /\
   pstate (node_of (pol m4) 101) = DEAD.
+Proof. vm_compute. repeat split. Qed.
+
+(* the hill climber's transfers (policy.climb / increaseWindow / decreaseWindow) are part of the model: the
+   amount is an input (floating-point arithmetic on sampled hit rates), what is moved where is not.  They
+   keep the bookkeeping invariant for every amount — C05_invariant_all_orders and C04_bound_after_maintenance
+   quantify over it (the adj of EMaint).  A transfer that takes the protected head because the probation
+   head is heavier than the quota: the entry goes to the window, the protected counter is decremented, the
+   unused quota goes back to the maxima *)
+Example C05_climber_takes_protected_head_when_probation_head_is_too_heavy :
+  let nd := fun k w q => mkPnode k w ALIVE q in
+  let p := mkPolicy [(1, nd 11 5 QPROBATION); (2, nd 12 1 QPROTECTED); (3, nd 13 1 QWINDOW)]
+                    [3] [1] [2] 32 7 1 1 24 1 sketch0 true in
+  let '(p', lft) := pol_climb_adj 2 p in
+  qwin p' = [3; 2] /\ qprob p' = [1] /\ qprot p' = [] /\ wwsize p' = 2 /\ pwsize p' = 0 /\ wsize p' = 7 /\
+  wmax p' = 2 /\ pmax p' = 23 /\ lft = 1 /\ pqueue (node_of p' 2) = QWINDOW.
+Proof. vm_compute. repeat split. Qed.
+
+Example C05_climber_shrinks_window :
+  let nd := fun k w q => mkPnode k w ALIVE q in
+  let p := mkPolicy [(1, nd 11 1 QWINDOW); (2, nd 12 1 QWINDOW); (3, nd 13 3 QWINDOW)]
+                    [1; 2; 3] [] [] 32 5 6 5 20 0 sketch0 true in
+  let '(p', lft) := pol_climb_adj (-2) p in
+  qwin p' = [3] /\ qprob p' = [1; 2] /\ wwsize p' = 3 /\ wmax p' = 4 /\ pmax p' = 22 /\ lft = 0.
 Proof. vm_compute. repeat split. Qed.
